@@ -25,7 +25,16 @@ RULE = ('a case = (reference SEL device: log of 0..50 16-byte records with disti
         'with the Lean decoding; records of every type class and boundary (02h, C0h, DFh, E0h, FFh; rejected: 00h, 01h, '
         '03h, BFh) are decoded directly as well.  HISTORIES: several operations (listing / get-and-clear / get under a '
         'fresh reservation, with an explicit retry where the tree has one) on ONE Ipmi object against one evolving '
-        'device, each step compared with the model started from the device as it stood (driver `snap`) and judged.  '
+        'device, each step compared with the model started from the device as it stood (driver `snap`) and judged; '
+        'HISTORIES WITH A FAILED OPERATION IN THE MIDDLE: [optionally a listing that negotiates a partial-read size] -> an '
+        'operation that ends in an exception - RetryError because the device refuses EVERY length (17 x CAh: busy / '
+        'erasing) or because get-and-clear used up its rounds (reservation cancelled before every request), '
+        'CompletionCodeError C5h (reservation lost in mid-listing; partial read without reservation) or CBh (absent '
+        'record id), DecodingError (a record of no known type, afterwards repaired) - by listing / get / get-and-clear '
+        '-> the device is healthy (whole records / 16 / 5 / 1) -> listing / get / get-and-clear on the SAME Ipmi object, '
+        'judged by the same oracles against the device as it then stands (every kind x failing operation x with/without '
+        'negotiated size x 4 healthy devices, plus seeded random chains of 1-3 failures); the device changes between two '
+        'steps by a `device` step (limit / whole / script / log), which is no operation of the library.  '
         'The variant of pyipmi/sel.py (floor of max_req_len, retry budget of get-and-clear, RetryError on a completed '
         'answer without data) is PROBED on the real code (a device that refuses every length; a script that cancels before '
         'every request; a fake that completes every read without a byte) and handed to the model.  '
@@ -40,7 +49,14 @@ ASSUMPTIONS = [
     'against that device (letters S<k>; outcome, requests and returned record compared with the model, "a result is the '
     'stored record" judged).  An answer without any record byte cannot complete a read: C13 (RetryError, bounded)',
     'partial-read limit 0 (the device refuses every length) is outside the property; it is generated for the '
-    'correspondence with the model only (max_req_len is a Python int in the model too: 0, -1 ... as shipped)',
+    'correspondence with the model and as the FAILING step of a history (what it leaves on the Ipmi object must not '
+    'reach the next operation, which meets a device inside the property) (max_req_len is a Python int in the model too: '
+    '0, -1 ... as shipped)',
+    'the models of get_sel_entry / sel_entries / get_and_clear_sel_entry take the device and nothing else: no state of '
+    'the Ipmi object survives a call.  Tied to the tree by harness/translate/loops10.py (`selStateless`: '
+    '`self.max_req_len = ENTIRE_RECORD` is an unconditional statement of get_sel_entry in front of its loop and of '
+    'every other mention of the attribute, the retrieval functions store no other attribute of self and use no '
+    'getattr / setattr / hasattr / __dict__) -> Props.C12.source_variant, and by the histories above on the real object',
     'termination of the two loops of pyipmi/sel.py under a device that refuses / cancels for ever is C13\'s clause '
     '(C13:get_sel_entry:unbounded-after-CAh, C13:get_and_clear_sel_entry:unbounded-after-C5h); the theorems here are '
     'about the repaired variant (Props.C12.source_variant ties it to the tree), and when that tie is broken the '
@@ -516,10 +532,29 @@ def history(ctx, drv, rng, dev, steps):
     iface = dev10.FakeInterface(device, cap=20000, files=('pyipmi/sel.py',), leaves=())
     ipmi = dev10.make_ipmi(iface)
     evs0 = list(dev['evs'])
+    limit, whole = dev['limit'], dev['whole']
     done = []
     for step in steps:
         st = parse_state(drv.ask('state'))
-        now = {'log': st['log'], 'limit': dev['limit'], 'whole': dev['whole'], 'cur': st['cur'], 'valid': st['valid'],
+        if step[0] == 'device':
+            # the DEVICE changes between two operations (busy -> healthy, another partial-read limit, a repaired
+            # record, a new script of concurrent changes); the Ipmi object stays the same.  Not an operation of the
+            # library: the reference device is loaded again with what it holds now and the new parameters.
+            kv = dict(x.split('=', 1) for x in step[1:])
+            limit = int(kv.get('limit', limit))
+            whole = (kv['whole'] == '1') if 'whole' in kv else whole
+            if 'evs' in kv:
+                evs0 = [] if kv['evs'] == '-' else kv['evs'].split(',')
+            else:
+                evs0 = evs0[len(evs0) - st['evs']:] if st['evs'] else []
+            log = st['log']
+            if 'log' in kv:
+                log = [] if kv['log'] == '-' else kv['log'].split(',')
+            device.load(dev_line({'log': log, 'limit': limit, 'whole': whole, 'cur': st['cur'], 'valid': st['valid'],
+                                  'evs': evs0}))
+            done.append([list(step), 'device changed'])
+            continue
+        now = {'log': st['log'], 'limit': limit, 'whole': whole, 'cur': st['cur'], 'valid': st['valid'],
                'evs': evs0[len(evs0) - st['evs']:] if st['evs'] else []}
         op = list(step)
         if op[0] == 'get' and op[2] == 'fresh':
@@ -563,6 +598,112 @@ def history(ctx, drv, rng, dev, steps):
         done.append([op, out])
         ctx.count('history-step:' + op[0])
     return done
+
+
+# ---- histories with a FAILED operation in the middle --------------------------------------------------------
+# what an operation that ended in an exception leaves on the Ipmi object must not reach the next operation
+HEALTHY = [('1', '16'), ('0', '16'), ('0', '5'), ('0', '1')]       # (whole, limit): "whole record" / 16 / 5 / 1
+FAIL_KINDS = ['refuse-all', 'c5-budget', 'c5-listing', 'c5-get', 'cb-absent', 'decoding']
+
+
+def _absent_id(dev):
+    used = set(_eid(h) for h in dev['log'])
+    return str(next(i for i in (0x7777, 0x7778, 0x1234, 0x4321, 5, 6, 7) if i not in used))
+
+
+def _bad_type(h, t=0x01):
+    b = bytearray(lean.unhex(h))
+    b[2] = t
+    return lean.hexs(bytes(b))
+
+
+def failing_steps(kind, dev, which):
+    """-> (steps that end in an exception on a conforming device, steps that make the device healthy again apart
+    from limit / whole).  `which` picks the operation that fails."""
+    log = dev['log']
+    if kind == 'refuse-all':
+        # busy / erasing: CAh for FFh, 16, 15 ... 1 (17 refusals) -> RetryError
+        op = (['entries'], ['get', '0', 'fresh'], ['gac', '0'])[which % 3]
+        return [['device', 'limit=0', 'whole=0', 'evs=-'], op], []
+    if kind == 'c5-budget':
+        # another party cancels the reservation before every request: get-and-clear uses up its rounds -> RetryError
+        return [['device', 'evs=' + ','.join(['c'] * 400)], ['gac', ('first-id', '65535')[which % 2]]], []
+    if kind == 'c5-listing':
+        # the reservation is lost in the middle of a listing that needs partial reads -> CompletionCodeError C5h
+        return [['device', 'whole=0', 'limit=%d' % (3, 7, 16)[which % 3], 'evs=n,n,n,n,c'], ['entries']], []
+    if kind == 'c5-get':
+        # partial read under a reservation that was never handed out -> CompletionCodeError C5h
+        return [['device', 'whole=0', 'limit=%d' % (4, 16)[which % 2], 'evs=-'], ['get', '0', '0']], []
+    if kind == 'cb-absent':
+        op = (['gac', _absent_id(dev)], ['get', _absent_id(dev), 'fresh'])[which % 2]
+        return [op], []
+    if kind == 'decoding':
+        # a record of no known type (01h / BFh) in the log -> DecodingError; afterwards the log is as it was
+        bad = [_bad_type(log[0], (0x01, 0xBF, 0x00)[which % 3])] + log[1:]
+        op = (['entries'], ['get', '0', 'fresh'], ['gac', '0'])[which % 3]
+        return [['device', 'log=' + ','.join(bad)], op], [['device', 'log=' + ','.join(log)]]
+    raise ValueError(kind)
+
+
+def after_failure_history(dev, kind, which, healthy, follow, pre=None):
+    steps = []
+    if pre is not None:
+        # a size negotiated by an earlier, successful listing (partial reads of <= pre bytes)
+        steps += [['device', 'whole=0', 'limit=%d' % pre, 'evs=-'], ['entries']]
+    fail, repair = failing_steps(kind, dev, which)
+    steps += fail + repair
+    steps.append(['device', 'whole=' + healthy[0], 'limit=' + healthy[1], 'evs=-'])
+    steps += [list(x) for x in follow]
+    return steps
+
+
+FOLLOW = [[['entries']], [['get', 'first-id', 'fresh']], [['gac', 'last-id']], [['gac', 'first-id'], ['entries']],
+          [['get', '65535', 'fresh'], ['gac', '0'], ['entries']]]
+
+
+def gen_after_failure(ctx, drv, rng, quick):
+    """[an operation that ends in an exception] -> device healthy (whole record / 16 / 5 / 1) -> listing / get /
+    get-and-clear on the SAME Ipmi object, each step judged by the oracles against the device as it then stands and
+    compared with the model (which knows no state but the device)."""
+    i = 0
+    for kind in FAIL_KINDS:
+        for which in range(3 if not quick else 2):
+            for pre in (None, 5):
+                for healthy in HEALTHY:
+                    i += 1
+                    dev = gen_device(rng, 2 + i % 3)
+                    follow = FOLLOW[i % len(FOLLOW)]
+                    steps = after_failure_history(dev, kind, which + i // 7, healthy, follow, pre)
+                    done = history(ctx, drv, rng, dev, steps)
+                    ctx.count('gen:history-after-failure')
+                    _count_failed(ctx, kind, done)
+    for _ in range(30 if quick else 600):
+        dev = gen_device(rng, rng.choice([1, 2, 3, 5]))
+        steps = []
+        for _k in range(rng.randrange(1, 4)):
+            kind = rng.choice(FAIL_KINDS)
+            fail, repair = failing_steps(kind, dev, rng.randrange(6))
+            if rng.random() < 0.4:
+                steps += [['device', 'whole=0', 'limit=%d' % rng.randrange(1, 17), 'evs=-'], ['entries']]
+            steps += fail + repair
+            steps.append(['device', 'whole=' + rng.choice('01'), 'limit=%d' % rng.choice([1, 2, 5, 8, 15, 16, 17]), 'evs=-'])
+            steps += [list(x) for x in rng.choice(FOLLOW)]
+        done = history(ctx, drv, rng, dev, steps)
+        ctx.count('gen:history-after-failure-random')
+        _count_failed(ctx, 'random', done)
+
+
+def _count_failed(ctx, kind, done):
+    """coverage: which exception actually preceded a later operation of the same object"""
+    failed = False
+    for op, out in done:
+        if op[0] == 'device' or op == 'reserve':
+            continue
+        if failed:
+            ctx.count('after-failed-op:%s' % op[0])
+        if not out.startswith('ok'):
+            ctx.count('failed-op:%s:%s:%s' % (kind, op[0], out.split(' ')[0]))
+            failed = True
 
 
 DECODE_TYPES = [0x02, 0xC0, 0xC1, 0xDF, 0xE0, 0xE1, 0xFF, 0x00, 0x01, 0x03, 0xBF, 0x7F]
@@ -692,6 +833,9 @@ def run(ctx):
                 steps.append(['get', rng.choice(['0', '65535', 'first-id', 'last-id']), 'fresh'])
         history(ctx, drv, rng, dev, steps)
         ctx.count('gen:history')
+    # 4e. the same with a FAILED operation in the middle: RetryError (every size refused; C5h budget used up),
+    #     CompletionCodeError (C5h, CBh), DecodingError - then the device is healthy and the same object is used again
+    gen_after_failure(ctx, drv, rng, quick)
     # 5. outside the premises (model must mirror): absent record id, reservation missing for partial reads,
     #    malformed records (unknown type / wrong id bytes), faults during get_sel_entries
     for _ in range(80 if quick else 800):
